@@ -1125,3 +1125,13 @@ package mcp
 //@ type StdioServer
 //@   transient[C05] responses
 //@
+// legacy SSE: every pending entry carries the session the request was sent to, and an
+// answer is handed over only when the posting session is that session
+//@ func SSEServer.handleResponseMessage
+//@   before call send#1 assert[C05 answer-accepted-only-from-the-session-the-request-was-sent-to] pending.sessionID == session.sessionID && responseChan == pending.ch
+//@ func SSEServer.handleRootsListResponse
+//@   before call send#1 assert[C05 answer-accepted-only-from-the-session-the-request-was-sent-to] session != nil && pending.sessionID == session.sessionID && responseChan == pending.ch
+//@   before call send#2 assert[C05 answer-accepted-only-from-the-session-the-request-was-sent-to] session != nil && pending.sessionID == session.sessionID && responseChan == pending.ch
+//@ type SSEServer
+//@   lockinv[C05 every-pending-entry-records-its-session] responsesMu: forall k uint64 :: (k in self.responses) ==> istype(self.responses[k], pendingResponse)
+//@
